@@ -134,6 +134,7 @@ def check(tg, lay, start, pdtype, hist, seed, zero_at=None):
     blocks = [ref_blocks(tuple(s), cfg["max_dim"], cfg["merge"])[1] for s in cfg["shapes"]]
     msgs, digests = [], []
     gstep = 0
+    pscale = {}
     diverged = False
     for t, mask in enumerate(hist):
         seq.set_grads(params, cfg, t, mask)
@@ -162,7 +163,8 @@ def check(tg, lay, start, pdtype, hist, seed, zero_at=None):
         if gstep < start and not diverged:
             for i, (a, b) in enumerate(zip(params, tparams)):
                 # scale: not smaller than the operands of the update (a 1-element parameter may cancel to ~0)
-                scale = max(b.detach().abs().max().item(), tbefore[i].abs().max().item(), 1e-30)
+                pscale[i] = max(pscale.get(i, 0.0), b.detach().abs().max().item(), tbefore[i].abs().max().item())
+                scale = max(pscale[i], 1e-30)
                 err = (a.detach() - b.detach()).abs().max().item() / scale
                 if not err <= tol:
                     msgs.append(f"warm-up step {t} (group step {gstep} < start {start}) mask {mask}: parameter {i} differs from torch.optim {tg['t']} twin by {err:.2e} (tol {tol:.1e})")
